@@ -85,6 +85,8 @@ enum {
   mythv_p_migrate_home,
   mythv_p_mutex_magic,
   mythv_p_felock_status,
+  mythv_p_desc_field,
+  mythv_p_sleepq,
   mythv_p_user = 100
 };
 
